@@ -34,6 +34,7 @@ func newWorld(repo, c03dir string, seed int64) *World {
 		}
 	}
 	w.Exts, w.Skipped = setupExtractors(w.Seeds)
+	w.buildSys()
 	for i, e := range w.Exts {
 		w.ExtByName[e.Name] = i
 	}
@@ -68,6 +69,9 @@ const containerdSnapshotDB = "var/lib/containerd/io.containerd.snapshotter.v1.ov
 // genCase derives case k of extractor e from the seed. k < len(Det): the unmutated seeds, once each.
 func (w *World) genCase(e int, k int64) *Case {
 	x := w.Exts[e]
+	if nd := int64(len(x.Det)); k >= nd && k < nd+int64(len(x.Sys)) {
+		return w.genSysCase(e, k, x.Sys[k-nd])
+	}
 	r := caseRand(w.Seed, e, k)
 	c := &Case{E: e, K: k, Ext: x.Name, Mode: 0o644}
 	var seed *Seed
